@@ -39,7 +39,7 @@ import (
 // unit is one work item sent from the parent to a worker (one JSON line on stdin).
 type unit struct {
 	ID   int    `json:"id"`
-	Kind string `json:"kind"` // "extract" | "contain"
+	Kind string `json:"kind"` // "extract" | "contain" | "engine"
 	Ex   string `json:"ex"`
 	Seed string `json:"seed"` // "f:<path relative to the repository>" or "m:<minimal document name>"
 	Cand int    `json:"cand"`
@@ -757,6 +757,7 @@ type replayData struct {
 	Mutation  string `json:"mutation"`
 	DataB64   string `json:"mutant_b64"`
 	Stack     string `json:"stack,omitempty"`
+	Combo     int    `json:"combo,omitempty"` // kind "engine": index into engineCombos()
 }
 
 func mkReplay(kind string, u unit, c cand, d string, data []byte) replayData {
@@ -1094,6 +1095,8 @@ func workerMain(id string) {
 				uerr = runExtractUnit(u)
 			case "contain":
 				uerr = runContainUnit(u)
+			case "engine":
+				uerr = runEngineUnit(u)
 			default:
 				uerr = harnessErr{"unknown unit kind"}
 			}
